@@ -211,6 +211,36 @@ func c10Run(b *core.B) {
 	}
 	b.CountN("exhaustive-histories", idx)
 
+	// Has(k) is true exactly when Value(k) is non-nil - also for a helper that
+	// is registered globally after the contexts were made (model-free invariant)
+	if b.Begin("late helper registration: Has(k) == (Value(k) != nil) on old and new contexts") {
+		pan := core.Guard(func() {
+			root := plush.NewContextWith(map[string]interface{}{"a": 1})
+			child := root.New().(*plush.Context)
+			grand := child.New().(*plush.Context)
+			name := fmt.Sprintf("lateHelper%d", b.Batch)
+			plush.Helpers.Add(name, func() string { return "late" })
+			fresh := plush.NewContext()
+			all := map[string]*plush.Context{"root made before": root, "child made before": child, "grandchild made before": grand,
+				"child made after": root.New().(*plush.Context), "root made after": fresh, "child of root made after": fresh.New().(*plush.Context)}
+			for which, c := range all {
+				for _, k := range []string{name, "a", "len", "neverset"} {
+					if has, val := c.Has(k), c.Value(k); has != (val != nil) {
+						b.Violate("has-disagrees-with-value|late-helper", fmt.Sprintf("%s: Has(%q) = %v but Value(%q) = %v", which, k, has, k, val))
+						return
+					}
+				}
+			}
+			if fresh.Value(name) == nil {
+				b.Violate("late-helper-missing-in-new-root", "a helper added to plush.Helpers is not visible in a context made afterwards")
+			}
+		})
+		if pan != nil {
+			b.Violate(pan.Sig(), pan.Value)
+		}
+		b.NonTrivialStr("late-helper", fmt.Sprint(b.Batch))
+	}
+
 	// long random histories on up to 8 contexts, checked after every operation
 	r := b.Rng(4)
 	n := 10000
